@@ -278,6 +278,11 @@ def check(ctx):
                      ignore=[f"not (self.length is not None and {lparam} == self.length)", f"{lparam} == self.length",
                              "self.length is not None"],
                      key="C01-D4/GATE|set_length|bound")
+    # the announced length is whatever json.loads made of the peer's header — NaN included (C01-r7m2)
+    bm = prog.module("lbry.blob.blob_file")
+    R.unordered_safe(ctx, "C01-D4/UNORDERED", ast.parse(bm.source), "AbstractBlob", "set_length", "self.length",
+                     "the announced length is stored only through order comparisons that are required to hold (an unordered value is refused)", bm.relpath,
+                     key="C01-D4/UNORDERED|set_length")
     tgt = prog.resolve_name(sl.fi.module, "MAX_BLOB_SIZE")
     ctx.ob("C01-D4/CONST", isinstance(tgt, tuple) and tgt[1].name == "lbry.blob", sl.site(), "the bound is lbry.blob.MAX_BLOB_SIZE",
            func=sl.fi.qualname)
